@@ -16,13 +16,21 @@ var outerT *testing.T
 func TestMain(m *testing.M) { pbt.Main(m, run) }
 
 func gen(t *rapid.T) mqrig.Case {
-	c := mqrig.Gen(t, false)
-	return c
+	if rapid.IntRange(0, 2).Draw(t, "pattern") > 0 {
+		return mqrig.GenWindDown(t)
+	}
+	return mqrig.Gen(t, false)
 }
 
 func judge(c mqrig.Case) *pbt.Verdict {
 	v := &pbt.Verdict{}
 	o := mqrig.Run(outerT, c)
+	if o.LateBuildClass() && run.Known("C16-built-after-queue-exit") {
+		// the same root cause leaves an idle queue behind: a message built while the queue exits
+		// ends up empty on a queue nobody will ever connect or shut down
+		v.Excluded = "C16-built-after-queue-exit"
+		return v
+	}
 	mqrig.Classify(v, c, o)
 	v.NonTrivial = o.ReconnectWhilePending
 	v.Note = fmt.Sprintf("queues=%d", len(o.Queues))
